@@ -43,7 +43,7 @@ impl std::error::Error for ProbeError {}
 /// mode 4: draws two words and fails if they are equal
 #[derive(Clone, Copy, Debug)]
 pub struct P(pub u8);
-pub const MODES: u8 = 5;
+pub const MODES: u8 = 6;
 
 thread_local! {
     /// number of calls that reached a wrapped implementation (an erased form must forward exactly once)
@@ -70,6 +70,18 @@ fn unlucky<R: Rng + ?Sized>(mode: u8, rng: &mut R) -> Result<(), ProbeError> {
             let b = rng.random_range(0..2u8);
             if a == b {
                 return Err(ProbeError(format!("equal draws {a} {b}")));
+            }
+            Ok(())
+        }
+        5 => {
+            // one draw through each of the three RngCore entry points (an adapter that rebuilds one
+            // from another changes the draw trace); fails on one combination
+            let a = rng.next_u64();
+            let mut b = [0u8; 3];
+            rng.fill_bytes(&mut b);
+            let c = rng.next_u32();
+            if (a >> 63) == 1 && (c >> 31) == 1 && b[2] >= 0x80 {
+                return Err(ProbeError("all three draws high".into()));
             }
             Ok(())
         }
@@ -433,7 +445,7 @@ pub fn run(run: &mut Run) {
     run.transitions = t.calls + t.leaves;
     run.traces_validated = t.calls;
     run.distinct_nontrivial = t.flavours.len() as u64 * MODES as u64;
-    run.rule = "5 erasable traits x 7 pointer types (&, &mut, Box, Rc, Arc, Ref, RefMut) x {-, Send, Sync, Send + Sync} = 140 wrapper types x 5 wrapped implementations (no draws / data-dependent number of draws / fails for certain arguments / fails depending on one drawn word / on two drawn words) x small argument families x every grid word sequence: each leaf of the concrete operator is replayed against the erased form; result identity/value, error text, the complete draw trace and the number of calls that reach the wrapped implementation must coincide; non-trivial = (flavour, implementation) pairs".into();
+    run.rule = "5 erasable traits x 7 pointer types (&, &mut, Box, Rc, Arc, Ref, RefMut) x {-, Send, Sync, Send + Sync} = 140 wrapper types x 5 wrapped implementations (no draws / data-dependent number of draws / fails for certain arguments / fails depending on one drawn word / on two drawn words / draws through next_u64, fill_bytes and next_u32) x small argument families x every grid word sequence: each leaf of the concrete operator is replayed against the erased form; result identity/value, error text, the complete draw trace and the number of calls that reach the wrapped implementation must coincide; non-trivial = (flavour, implementation) pairs".into();
     run.bound("flavours", json!(t.flavours.len()));
     run.bound("alphabet", json!("Grid(2)"));
     run.note("concrete_leaves", json!(t.leaves));
